@@ -157,7 +157,7 @@ int nondet_int(void); size_t nondet_size_t(void); uint32_t nondet_u32(void);
 #define GHOSTS() ((void)0)
 #endif
 #define BD_FRESH(d) (__CPROVER_is_fresh(d, sizeof(struct BitDecoder)) && BD_STATE(d))
-#define BD_STATE(d) (ghost_len <= BD_MAXLEN && __CPROVER_is_fresh((d)->bit_buffer_, ghost_len) && (d)->bit_buffer_end_ == (d)->bit_buffer_ + ghost_len && (d)->bit_offset_ <= 8 * ghost_len)
+#define BD_STATE(d) (ghost_len <= BD_MAXLEN && __CPROVER_is_fresh((d)->bit_buffer_, ghost_len) && __CPROVER_pointer_equals((d)->bit_buffer_end_, (d)->bit_buffer_ + ghost_len) && (d)->bit_offset_ <= 8 * ghost_len)
 #define BD_MIN(a, b) ((a) < (b) ? (a) : (b))
 #define BD_AVAIL(off) ((off) >= 8 * ghost_len ? (size_t)0 : 8 * ghost_len - (off))
 /* value of stream bit number k (0 beyond the end) */
